@@ -442,6 +442,7 @@ type lcOut struct {
 	name string
 	term *lcNode
 	err  string
+	text string // for name == "shapes": ready-made Lean text (lifecycle_shapes.go)
 }
 
 // lcExtract parses <repo>/app and returns the skeletons (or, per skeleton, why it could not be built).
@@ -546,6 +547,7 @@ func lcExtract(repo string) []lcOut {
 		gb := x.goBody
 		guard("run-go", func() *lcNode { return gb })
 	}
+	var armNames []string
 	for _, cl := range sel.Body.List {
 		cc := cl.(*ast.CommClause)
 		name := "default"
@@ -565,6 +567,7 @@ func lcExtract(repo string) []lcOut {
 				name = "?"
 			}
 		}
+		armNames = append(armNames, name)
 		guard("run-arm "+name, func() *lcNode { return x.block(cc.Body) })
 	}
 	guard("run-after", func() *lcNode {
@@ -578,6 +581,25 @@ func lcExtract(repo string) []lcOut {
 		rest := append([]ast.Stmt{ls.Stmt}, post[1:]...)
 		return lcSeq(&lcNode{kind: "C", name: "label", qual: ls.Label.Name}, x.block(rest))
 	})
+	// the shapes (lifecycle_shapes.go)
+	func() {
+		defer func() {
+			if r := recover(); r != nil {
+				if e, ok := r.(lcErr); ok {
+					out = append(out, lcOut{name: "shapes", err: e.msg})
+					return
+				}
+				panic(r)
+			}
+		}()
+		label := ""
+		if len(post) > 0 {
+			if ls, ok := post[0].(*ast.LabeledStmt); ok {
+				label = ls.Label.Name
+			}
+		}
+		out = append(out, lcOut{name: "shapes", text: x.shapes(armNames, label)})
+	}()
 	return out
 }
 
@@ -617,10 +639,11 @@ func (n *lcNode) lean(ctr *int) string {
 // genLifecycle renders Gen/Lifecycle.lean. It does not panic: problems end up in `extractError`.
 func genLifecycle(repo string) (out string) {
 	var b strings.Builder
-	b.WriteString("import Rivaas.Model.LifecycleSkel\n/- REGENERATED by extract/ from app/*.go on every run — do not edit. -/\nnamespace Rivaas.Gen.Lifecycle\nopen Rivaas.LifecycleSkel\n\n")
+	b.WriteString("import Rivaas.Model.LifecycleWhole\n/- REGENERATED by extract/ from app/*.go on every run — do not edit. -/\nnamespace Rivaas.Gen.Lifecycle\nopen Rivaas.LifecycleSkel\n\n")
 	errText := ""
 	var entries, arms []string
 	pre, gor, after := ".skip", ".skip", ".skip"
+	shapes := ""
 	func() {
 		defer func() {
 			if r := recover(); r != nil {
@@ -630,6 +653,10 @@ func genLifecycle(repo string) (out string) {
 		for _, sk := range lcExtract(repo) {
 			if sk.err != "" {
 				errText += sk.name + ": " + sk.err + "; "
+				continue
+			}
+			if sk.name == "shapes" {
+				shapes = sk.text
 				continue
 			}
 			ctr := 0
@@ -649,7 +676,15 @@ func genLifecycle(repo string) (out string) {
 		}
 	}()
 	fmt.Fprintf(&b, "/-- why the skeletons could not be extracted completely (\"\" = they were) -/\ndef extractError : String := %s\n\n", leanStr(errText))
-	fmt.Fprintf(&b, "def skels : Skels :=\n  { entries := [\n      %s],\n    pre := %s,\n    go := %s,\n    arms := [\n      %s],\n    after := %s }\n\nend Rivaas.Gen.Lifecycle\n",
+	fmt.Fprintf(&b, "def skels : Skels :=\n  { entries := [\n      %s],\n    pre := %s,\n    go := %s,\n    arms := [\n      %s],\n    after := %s }\n\n",
 		strings.Join(entries, ",\n      "), pre, gor, strings.Join(arms, ",\n      "), after)
+	if shapes == "" {
+		// fail closed: the shape definitions must exist for Tie/C09 to build; empty ones cannot pass its obligations
+		shapes = "def loopShape : LoopShape := { armChans := [], label := \"\", gotoTargets := [] }\ndef hookLoops : List HookLoop := []\n" +
+			"def reloadShape : ReloadShape := { lockFirst := false, deferUnlockNext := false, hooksAfter := false, noOtherUnlock := false }\n" +
+			"def obsShape : ObsShape := { started := [], startReturnsOnError := false, shutDown := [], shutdownHasNoReturn := false, abortOrder := [], abortCtxDetached := false, shutdownCtxDetached := false, hooksAndDrainShareCtx := false, finalCtxFreshWhenExpired := false, flushAndStopShareFinalCtx := false }\n"
+	}
+	b.WriteString(shapes)
+	b.WriteString("\nend Rivaas.Gen.Lifecycle\n")
 	return b.String()
 }
